@@ -20,7 +20,7 @@ PROPERTY = 'C11'
 ASSUMPTIONS = [
     'Tor = SimTor (control-spec config store; GETCONF answers bare "250 Name" for an unset string/list option and the value for numeric/boolean ones, as Tor does)',
     'real TorControlProtocol with a list transport, authentication skipped (post_bootstrap None => TorConfig bootstraps at once)',
-    'three-valued: an unset option without a listed default may read as the DEFAULT sentinel, as "" or as an empty list',
+    'three-valued: an unset option without a listed default may read as the DEFAULT sentinel, as "" or as an empty list (also a Boolean / number that another controller reset: Tor does not say what the default is)',
 ]
 BOUNDS = {'quick': {'options': 'one of each declared type + SocksPort port list', 'values': 'ints -5..70000 rendered as text, strings of <=2 symbolic printable chars',
                     'change_events': '<=3 steps, single-option and two-option events; one event at any point during bootstrap'},
@@ -67,6 +67,9 @@ def bootstrap(p, tor):
 
 def want_view(kind, vals, default):
     """acceptable reads for an option of `kind` whose SimTor values are vals (None = unset)"""
+    if vals is None and kind in ('bool', 'auto', 'int', 'float'):
+        # reset to Tor's default: the default from config/defaults with the option's type, or (default not listed) the DEFAULT sentinel
+        return want_view(kind, list(default), None) if default else [DEFAULT_VALUE]
     if kind == 'bool':
         return [bool(int(vals[0]))]
     if kind == 'auto':
@@ -105,7 +108,7 @@ def check_option(cfg, name, kind, vals, default, attr=None):
         if list(got) not in acceptable:
             return R('list-value-differs', '%s: view %r tor %r', name, list(got), vals)
     else:
-        if got not in acceptable or (kind == 'bool' and not isinstance(got, bool)):
+        if got not in acceptable or (kind == 'bool' and not isinstance(got, bool) and got != DEFAULT_VALUE):
             return R('scalar-value-differs', '%s: view %r tor %r', name, got, vals)
     return ''
 
@@ -185,17 +188,18 @@ def _changed(kind, steps, svals, multi=False):
     name = _NAME[kind]
     values = {'AvoidDiskWrites': ['0'], 'AssumeReachable': ['auto'], 'NumCPUs': ['4'], 'CircuitPriorityHalflife': ['30.0'],
               'Nickname': ['fixed'], 'ExitNodes': ['x1'], 'ExcludeNodes': ['{aa},{bb}'], 'Log': ['notice stdout'], 'SocksPort': ['9050'], '__SocksPort': None, 'SocksPortLines': None}
-    p, t, tor = make_world(values, True, {'Nickname': ['Unnamed']})
+    p, t, tor = make_world(values, True, {'Nickname': ['Unnamed'], 'NumCPUs': ['0']})
     with api.no_tracing():
         cfg, out = bootstrap(p, tor)
         if out.ok != 1:
             return 'harness: bootstrap failed %r' % (out.exc(),)
     listy = kind in ('comma', 'lines', 'ports')
     pending_local = None
+    dflt = {'str': ['Unnamed'], 'int': ['0']}.get(kind)
     try:
         for n, op in enumerate(steps):
             if op <= 2:
-                if not listy and op != 1 and not (kind == 'str' and op == 0):
+                if not listy and op == 2:
                     assume(False)
                 if kind == 'comma' and op == 2:
                     assume(False)
@@ -209,7 +213,7 @@ def _changed(kind, steps, svals, multi=False):
                     changes.append((xname, xvals))
                 tor.say(*tor.conf_changed_lines(changes))
                 pending_local = None
-                r = check_option(cfg, name, kind, vals, ['Unnamed'] if kind == 'str' else None)
+                r = check_option(cfg, name, kind, vals, dflt)
                 if r:
                     return r
                 if multi:
@@ -217,7 +221,7 @@ def _changed(kind, steps, svals, multi=False):
                     if r:
                         return R('second-option-of-the-event', '%s', r)
                 for spelling in (name.lower(), name.upper()):
-                    r = check_option(cfg, name, kind, vals, ['Unnamed'] if kind == 'str' else None, spelling)
+                    r = check_option(cfg, name, kind, vals, dflt, spelling)
                     if r:
                         return R('read-depends-on-the-spelling-of-the-name', '%s: %s', spelling, r)
             elif op == 3:
